@@ -11,6 +11,8 @@ MIRSYM_NOTE = ('Trusted base: the MIRSYM interpreter (/verif/mirsym) and its lib
                'semantics of the source, kissat / z3 verdicts.  Guards: translator validation against the real compiled crate on every run, '
                'a mutated-MIR self-test per check, replay of every counterexample on dev and release builds before it is reported.')
 
+TV_NOTE = "Trusted base: the reference front end checks/genlang.py (lexer, parser, semantics of the formula language written from the README), the independently written specification per generator, z3's verdict. The generator binary is built from the current tree and runs concretely per configuration; every disagreement is re-checked by direct evaluation and, where the instance is small enough, with the real rsbdd evaluator."
+
 CLAIMED = {
     'C01': dict(text='Bounded model checking of the real MIR of ParsedFormula::eval / eval_recursive / replace_var / BDDEnv::fp on syntax-tree sketches (concrete shape up to 2-3 internal nodes; every operator, quantifier kind, counting kind, 64-bit constant, fixed-point start and variable id symbolic over 3 atoms, so bound/free reuse and shadowing are included) against an independent reference semantics of the language; BDDEnv callees replaced by contracts that lemma units of the same run discharge on the real MIR of src/bdd.rs; both overflow profiles.',
                 design='DESIGN.md 4/C01'),
@@ -41,6 +43,9 @@ CLAIMED = {
                 design='DESIGN.md 4/C05'),
     'C07': dict(text='Bounded model checking of model and infer: false leaf iff unsatisfiable, single cube, implies f, mentions only support variables; infer (true,true) iff forced.',
                 design='DESIGN.md 4/C07'),
+    'C15': dict(text='Translation validation of n_queens_gen: for every board size in the bound the real binary\'s output is parsed by an independent front end (and the real parser) and the solver decides that the emitted formula and the n-queens specification agree on ALL 2^(n*n) assignments; for n <= 4 the real evaluator\'s truth table is also compared.', design='DESIGN.md 4/C15', category='translation_validation', engine='gencheck', note=TV_NOTE, technique='translation validation: real generator output vs independent specification, equivalence over all assignments decided by z3'),
+    'C16': dict(text='Translation validation of max_clique_gen over all simple graphs on <= 3 vertices (one-directional and symmetric), duplicates, self loops, seeded multigraphs, helper-name collisions, x {-u} x {-a}: emitted formula == maximum-clique (all-clique) specification on every vertex subset.', design='DESIGN.md 4/C16', category='translation_validation', engine='gencheck', note=TV_NOTE, technique='translation validation: real generator output vs independent specification, equivalence over all assignments decided by z3'),
+    'C17': dict(text='Translation validation of sudoku_gen for r = 1, 2 over a family of puzzle texts (empty, full, short, over-long, contradictory, ASCII and non-ASCII blanks and whitespace) and r = 3 for seeded puzzles: emitted formula == sudoku specification on all assignments (64 / 729 variables).', design='DESIGN.md 4/C17', category='translation_validation', engine='gencheck', note=TV_NOTE, technique='translation validation: real generator output vs independent specification, equivalence over all assignments decided by z3'),
     'C19': dict(text='Bounded model checking of every BDDSet operation (insert, union, intersect, complement, empty, universe, contains) as one inductive step from an arbitrary state: two sets over 2..3 bits with unknown truth tables sharing an environment, distinct or the same object, element an unconstrained usize; post-state equals the reference set operation for every element, the other set is unchanged, queries do not modify, no panic (RefCell borrow counter modelled).',
                 design='DESIGN.md 4/C19'),
     'C20': dict(text='Bounded model checking of retain_choice_bottom_up for every function of k variables and a symbolic filter: direction of implication, identity for Any, ordered/reduced, support.',
@@ -87,6 +92,7 @@ def main():
         },
         'engines': [
             {'name': 'mirsym', 'path': 'mirsym/', 'serves_properties': sorted(CLAIMED), 'kind_free_text': 'bounded symbolic executor for rustc MIR text (nightly -Zunpretty=mir of the current tree) producing z3 terms; SAT back end kissat via own Tseitin encoder, SMT back end z3'},
+            {'name': 'gencheck', 'path': 'checks/gencore.py', 'serves_properties': ['C15', 'C16', 'C17', 'C18'], 'kind_free_text': 'translation validation of generator output: independent parser + semantics (checks/genlang.py), equivalence with a specification decided by z3 over all assignments'},
             {'name': 'replay', 'path': 'replay/', 'serves_properties': sorted(CLAIMED), 'kind_free_text': 'Rust driver linked against /repo (dev+release) used for counterexample replay and translator validation'},
         ],
         'checks': checks,
